@@ -1,6 +1,7 @@
-"""C02 - no value creation, no negative amounts (see lib/ledger.py); the bid application's escrow (Bid.tla, Bid_Trace.tla)."""
+"""C02 - no value creation, no negative amounts (see lib/ledger.py); the bid application's escrow (Bid.tla, Bid_Trace.tla);
+the fee pool (Fees.tla, Fees_Trace.tla, lib/feeslib.py)."""
 import json, os
-import bidlib, ledger, subsys, vlib
+import bidlib, feeslib, ledger, subsys, vlib
 from bidlib import BID_TRACE
 from ledger import vdrive
 
@@ -71,11 +72,20 @@ def run(ctx, replay):
     if replay and json.load(open(replay)).get("spec") == "Bid":
         bidlib.replay(ctx, replay, "Value.")
         return
-    bidcov = None
+    if replay and json.load(open(replay)).get("spec") == "Fees":
+        feeslib.replay(ctx, replay)
+        return
+    bidcov = feecov = None
     if not replay:
         ctx.build("vworker", "vdrive")
         bidcov = bid(ctx)
+        feecov = feeslib.run(ctx)
     ledger.run(ctx, "C02", replay)
+    if feecov:
+        ctx.cov["fee_pool"] = feecov
+        ctx.notes.append("binding self-tests (Fees_Trace): five units appearing in the pool are reported as Value.PoolFedByFees; a unit credited to another stake address than the rule says is reported as Conf.DistributionByPower")
+        if feecov["conformance_notes"]:
+            ctx.notes.append("fee distribution differs from Fees.tla (no listed property speaks about it): %s" % feecov["conformance_notes"])
     if bidcov:
         ctx.cov["bid_application"] = bidcov
         ctx.notes.append("binding self-test (Bid_Trace): an open bid with a negative recorded amount is reported as Value.NonNegative")
